@@ -16,6 +16,7 @@ from pyvc.models import components as CM
 def compile_setup(it, env):
     CM.init_ghost(it, env, env.lookup('options'))
     it.ctx.ghost['check_parsed_text'] = True
+    it.ctx.ghost['mibnames_seq'] = env.lookup('mibnames').seq
     it.ctx.ghost['sources_seq'] = env.lookup('self').fields['_sources'].seq     # the sources in the order added
 
 
@@ -37,6 +38,9 @@ DEFS = {
     'FAILST': 'lambda v: strval(v) == "failed" or strval(v) == "missing"',
     'ST': 'lambda v, s: strval(v) == s',
     'W': 'lambda: truthy(options.get("writeMibs", True))',
+    # the module k was obtained by looking up an explicitly requested name
+    'REQ': 'lambda k: k in ghost("req_ok")',
+    'ND': 'lambda: truthy(options.get("noDeps"))',
 }
 
 # ---------------------------------------------------------------- discovery (loops 1-3)
@@ -54,6 +58,11 @@ DISC = [
     'forall(processed, lambda k, v: implies(ST(v, "missing"), count(ghost("fetch_cnt"), k) == len(self._sources)))',
     # C08 terminates: everything on the work list is a name of the (finite) universe
     'forall(mibsToParse, lambda n: n in ghost("U"))',
+    # C10 noDeps: the modules recorded as "canonical" are exactly those obtained for an explicitly requested name
+    'forall(ghost("req_ok"), lambda k, v: k in canonicalMibNames)',
+    'forall(canonicalMibNames, lambda k, v: REQ(k))',
+    # discovery only ever reports failed / missing
+    'forall(processed, lambda k, v: FAILST(v))',
 ]
 # C08 closure / C07 accounted (all histories): every import of a parsed module and every requested name is parsed,
 # failed, looked up already or still queued; a name that was looked up is parsed, failed, or the look-up produced
@@ -197,6 +206,34 @@ L12 = [
     'H() or forall(ghost("gen_by_name"), lambda k, v: k in U2 and same(U2[k][2], v))',
 ]
 
+# C10 / C19 noDeps: canonicalMibNames holds exactly the modules obtained for an explicitly requested name (established
+# by discovery, constant afterwards)
+CANON = ['forall(ghost("req_ok"), lambda k, v: k in canonicalMibNames)', 'forall(canonicalMibNames, lambda k, v: REQ(k))']
+# "needs generating": a requested module is reported untouched only because a searcher said it is fresh - never because
+# of noDeps; and with noDeps only requested modules stay in the work set
+ND4 = CANON + [
+    'forall(P0, lambda k, v: implies(REQ(k) and k in processed and ST(processed[k], "untouched"), k in ghost("fresh_seen")))',
+    'forall(parsedMibs, lambda k, v: implies(k in _done and ND(), REQ(k)))',
+]
+ND5 = CANON + [
+    'forall(P0, lambda k, v: implies(REQ(k) and k in processed and ST(processed[k], "untouched"), k in ghost("fresh_seen")))',
+    'forall(parsedMibs, lambda k, v: implies(k in _done and ND(), REQ(k)))',
+]
+# code generation: with noDeps code is generated for requested modules only
+ND6 = ['implies(ND(), forall(P1, lambda k, v: REQ(k)))']
+# borrowing: an explicitly requested name that stays failed was offered to every borrower, noDeps or not
+ND7 = [
+    'forall(F0, lambda k, v: implies(k not in _done, count(ghost("borrow_n"), k) == 0))',
+    'forall(F0, lambda k, v: implies(k in _done and k in failedMibs and k in mibnames, '
+    'count(ghost("borrow_n"), k) == len(self._borrowers)))',
+]
+ND8 = [
+    'forall(F0, lambda k, v: implies(k not in _done and k != mibname, count(ghost("borrow_n"), k) == 0))',
+    'forall(F0, lambda k, v: implies(k in _done and k in failedMibs and k in mibnames, '
+    'count(ghost("borrow_n"), k) == len(self._borrowers)))',
+    'mibname not in _done', 'count(ghost("borrow_n"), mibname) == _i',
+]
+
 LOOPS = {
     1: {'invariant': DISC + CLOSURE1, 'step': STEP1},
     2: {'invariant': DISC + CLOSURE2 + [
@@ -211,15 +248,15 @@ LOOPS = {
         'H() or implies(_j > 0, mibname in parsedMibs)',
         'implies(_j > 0, mibname in ghost("resolved"))',
         'count(ghost("fetch_cnt"), mibname) <= len(self._sources)']},
-    4: {'invariant': L4 + L4_HEAD + ACC + ['forall(P0, lambda k, v: k in processed or k in parsedMibs)'],
+    4: {'invariant': L4 + L4_HEAD + ACC + ND4 + ['forall(P0, lambda k, v: k in processed or k in parsedMibs)'],
         'snap': {'P0': 'parsedMibs'}},
-    5: {'invariant': L4 + L5_HEAD + ACC + ['mibname in parsedMibs',
+    5: {'invariant': L4 + L5_HEAD + ACC + ND5 + ['mibname in parsedMibs',
                                            'forall(P0, lambda k, v: k in processed or k in parsedMibs)']},
-    6: {'invariant': L6 + ACC + ['forall(P0, lambda k, v: k in processed or k in parsedMibs or k in builtMibs)'],
+    6: {'invariant': L6 + ACC + ND6 + ['forall(P0, lambda k, v: k in processed or k in parsedMibs or k in builtMibs)'],
         'snap': {'P1': 'parsedMibs'}},
-    7: {'invariant': L7 + ACC + ['forall(P0, lambda k, v: k in processed or k in builtMibs)'],
+    7: {'invariant': L7 + ACC + ND7 + ['forall(P0, lambda k, v: k in processed or k in builtMibs)'],
         'snap': {'F0': 'failedMibs'}},
-    8: {'invariant': L7 + ACC + ['mibname in failedMibs', 'forall(P0, lambda k, v: k in processed or k in builtMibs)']},
+    8: {'invariant': L7 + ACC + ND8 + ['mibname in failedMibs', 'forall(P0, lambda k, v: k in processed or k in builtMibs)']},
     9: {'invariant': L9 + ACC + ['forall(P0, lambda k, v: k in processed or k in builtMibs)'],
         'snap': {'B0': 'borrowedMibs', 'U1': 'builtMibs'}},
     10: {'invariant': L9 + ACC + ['mibname in borrowedMibs', 'forall(P0, lambda k, v: k in processed or k in builtMibs)']},
@@ -285,6 +322,7 @@ CONTRACTS = [
                 'C07_accounted': 'forall(mibnames, lambda n: n in processed or n in ghost("resolved"))',
                 'C07_accounted_by_name': 'H() or forall(mibnames, lambda n: n in processed)',
                 'C08_fetch_once': 'forall(lambda s_k: count(ghost("fetch_cnt"), s_k) <= len(self._sources))',
+                'C10_nodeps_generates_only_requested_modules': 'implies(ND(), forall(ghost("gen_by_name"), lambda k, v: REQ(k)))',
                 'C09_ignore_errors_keeps_bad_status': 'H() or forall(PR2, lambda k, v: implies(FAILST(v), '
                     'k in processed and FAILST(processed[k])))',
             },
